@@ -64,7 +64,7 @@ def _build(outs):
     from vf import progcheck
     if isinstance(outs, str):
         from vf import dagfam
-        g = {n: b for n, b, _d in dagfam.all_graphs()}[outs]()
+        g = {n: b for n, b, _d in dagfam.all_graphs("thorough")}[outs]()
         if isinstance(g, pt.Array):
             g = pt.make_dict_of_named_arrays({"out": g})
         try:
